@@ -33,6 +33,7 @@ MANIFEST = {
     "note": "Name sets folded onto one identifier by one-way stropping are avoided by the generator. cetl++14-17 cannot be compiled offline (CETL absent). "
             "Warnings outside the project's flag set are not requested.",
 }
+MANIFEST["text"] += ' Shapes also cover types whose only integers are byte/utf8 and fixed bit arrays next to fixed arrays of other elements; option variants are generated over the output the plain command line left in the same directory; the cetl++14-17 flavour is compiled against a stand-in for the two CETL headers it names.'
 
 
 def strict_flags():
